@@ -772,6 +772,15 @@ class P(Prop):
         if af_in in feats and rng.random() < 0.2:
             af_out = None        # third argument omitted: output into the input feature
         c = {"kind": "op", "x": sigs["x"], "y": sigs["y"], "z": sigs["z"], "feats": feats, "in": af_in, "out": af_out, "k": k, "sc": sc}
+        if featk and rng.random() < 0.5:
+            # the algebraic form of the same call: track.operate("out = in ! w") / ("out = in .* w"); without left-hand
+            # side the values are returned and the track is left as it was; a coordinate may be the left-hand side
+            c["expr"] = rng.choice(["!", ".*", " ! "])
+            r = rng.random()
+            if r < 0.2:
+                c["out"] = None
+            elif r < 0.4:
+                c["out"] = rng.choice(["x", "z", "y"])
         w = self.op_weights(c)
         if not domain_ok(w, dict(sigs, **feats)[af_in]):
             return None
@@ -897,7 +906,8 @@ class P(Prop):
         if kind == "opl":
             t["form"] = case["form"]
         if kind == "op":
-            t["output"] = "omitted" if case["out"] is None else ("input" if case["out"] == case["in"] else "other")
+            t["output"] = "omitted" if case["out"] is None else ("input" if case["out"] == case["in"] else "coordinate" if case["out"] in ("x", "y", "z") else "other")
+            t["entry"] = "algebraic " + case["expr"].strip() if case.get("expr") else "operator"
         if k["t"] == "user":
             t["user_types"] = "".join(sorted({e[0] for e in k["tbl"]}))
             t["edge_zero_int"] = bool(k["tbl"]) and k["tbl"][-1][1] == 0 and k["tbl"][-1][0] in ("i", "I", "b") or int(k["s"]) >= len(k["tbl"])
@@ -1119,11 +1129,14 @@ class P(Prop):
             for nm, v in case["feats"].items():
                 t.createAnalyticalFeature(nm, [num(a) for a in v])
             kern = self.mk_kernel(case["k"])
-            if case["out"] is None:
+            if case.get("expr"):
+                e = "%s%s%s" % (case["in"], case["expr"], case["k"]["name"])
+                ret = t.operate(e if case["out"] is None else "%s=%s" % (case["out"], e))
+            elif case["out"] is None:
                 ret = t.operate(self.Operator.FILTER, case["in"], kern)
             else:
                 ret = t.operate(self.Operator.FILTER, case["in"], kern, case["out"])
-            return {"ret": [canon(a) for a in ret], "sigs": self.read_track(t),
+            return {"ret": None if ret is None else [canon(a) for a in ret], "sigs": self.read_track(t),
                     "kafter": [canon(a) for a in kern] if isinstance(kern, list) else None,
                     "window": self.window_of(case["k"]), "state": self.globals_now()}
         if kind == "opl":
@@ -1255,6 +1268,8 @@ class P(Prop):
             return ls
         if kind == "op":
             k = case["k"]
+            if case.get("expr"):
+                return ["C15.opx %s %s %s %s %s" % (sc, case["in"], k["name"], "-" if case["out"] is None else case["out"], self.track_tok(sc, case))]
             if case["out"] is None:
                 ls = ["C15.opa %s one %s - %s %s" % (sc, case["in"], self.track_tok(sc, case), self.kspec(sc, k))]
             else:
@@ -1355,7 +1370,7 @@ class P(Prop):
                 return {"err": r[0]}
             names = untok(r[3])
             sigs = [self.vals(sc, s) for s in untok(r[4], ";")]
-            return {"ret": self.vals(sc, r[2]), "sigs": dict(zip(names, sigs)), "kafter": None if r[1] == "none" else self.vals(sc, r[1]),
+            return {"ret": None if r[2] == "none" else self.vals(sc, r[2]), "sigs": dict(zip(names, sigs)), "kafter": None if r[1] == "none" else self.vals(sc, r[1]),
                     "window": self.decode_window(case, case["k"], replies), "state": self.decode_globals(self.PRISTINE_TOKEN)}
         if kind == "opl":
             r = replies[0].split(" ")
@@ -1534,13 +1549,23 @@ class P(Prop):
             if bad:
                 return bad
             allsig = dict({"x": case["x"], "y": case["y"], "z": case["z"]}, **case["feats"])
+            if case.get("expr") and case["out"] is None:
+                # "in ! w" without left-hand side: the filtered values are returned, the track is as it was
+                bad = check_signal(w, allsig[case["in"]], fb, out["ret"], "returned list")
+                if bad:
+                    return bad
+                for nm in sorted(allsig):
+                    if out["sigs"].get(nm) != [canon(num(a)) for a in allsig[nm]]:
+                        return "%s was not to be filtered but changed: %r -> %r" % (nm, allsig.get(nm), out["sigs"].get(nm))
+                return None
             case = dict(case, out=case["out"] if case["out"] is not None else case["in"])
             bad = check_signal(w, allsig[case["in"]], fb, out["sigs"].get(case["out"]), "feature %s" % case["out"])
             if bad:
                 return bad
-            bad = check_signal(w, allsig[case["in"]], fb, out["ret"], "returned list")
-            if bad:
-                return bad
+            if not case.get("expr"):
+                bad = check_signal(w, allsig[case["in"]], fb, out["ret"], "returned list")
+                if bad:
+                    return bad
             for nm, v in allsig.items():
                 if nm != case["out"] and out["sigs"].get(nm) != [canon(num(a)) for a in v]:
                     return "%s was not to be filtered but changed: %r -> %r" % (nm, v, out["sigs"].get(nm))
